@@ -25,7 +25,11 @@ NEVER_FROM = {"C20"}
 NEVER_INTO = set()
 # rejection / non-interference does not depend on what the operations compute - but it does depend on the recorded dimensions being
 # the true ones: C20 imports only the shape-bookkeeping families (constructors, resize, delete/transpose shape updates)
-ONLY_FAMILIES = {"C20": ("shape", "edit", "transpose-shape", "transpose", "lookup", "lengths")}
+ONLY_FAMILIES = {"C20": ("shape", "edit", "transpose-shape", "transpose", "lookup", "lengths", "operators")}   # operators: the result records the operands' shape
+# the receiver of the Krylov solvers is a Sparse matrix built through any of its constructors / editors: if those do not produce the matrix the
+# caller specified (a lost or duplicated entry), the solver answers Ok for another system.  (P: (Q, families of Q imported wherever they are anchored))
+RECEIVER_INVARIANT = {"C08": ("C06", ("lengths", "col-start", "col-index", "lookup", "scale", "transpose-shape")),
+                      "C09": ("C06", ("lengths", "col-start", "col-index", "lookup", "scale", "transpose-shape"))}
 SAME_ANCHOR = {("C09", "C08")}   # (P, Q): Q's rules at P's own anchor functions are imported too (convergence needs the residual bookkeeping)
 F64_ONLY = {"C08", "C09", "C16"}   # Sparse<f64> Krylov solvers, Vector<f64>::dot_f64: their anchors are monomorphic in f64
 SKIP_FAMILIES = ("floor", "engine", "intact", "state", "no-hidden-state", "no-unsafe", "guard", "witness", "pdb", "anchor",
@@ -138,6 +142,8 @@ def run(prop, rep, pdb):
             f = r.fn or (fn_of_where(pdb, r.where) if r.where else None)
             if prop in ONLY_FAMILIES:
                 pass          # shape bookkeeping anywhere in the crate: every shape check reads dimensions some constructor / edit recorded
+            elif prop in RECEIVER_INVARIANT and RECEIVER_INVARIANT[prop][0] == q and _family(r.key) in RECEIVER_INVARIANT[prop][1]:
+                pass
             elif f is None or not (f in reach or ((prop, q) in SAME_ANCHOR and f in own)):
                 continue
             key = "%s/dep/%s" % (prop, r.key)
